@@ -64,7 +64,8 @@ def _in_range(c):
 
 
 def reactive_edge(obj, cfg, c):
-    """Execute one evaluation on ``obj`` (mutated).  Returns (before, after, outcome, violations)."""
+    """Execute one evaluation on ``obj`` (mutated).  Returns (before, after, outcome, violations, observation).
+    Only the public interface is used: ``update()``, its return value and the documented ``state`` attribute."""
     table = R.table_for(1000 if cfg is None else cfg)
     before = _sidx(obj)
     bad = []
@@ -75,6 +76,11 @@ def reactive_edge(obj, cfg, c):
     except Exception as e:  # noqa: BLE001
         out, exc = None, type(e).__name__
     after = _sidx(obj)
+    if exc is None:
+        obs = ("out", R.STATES[after], str(getattr(getattr(out, "state", None), "name", None)),
+               _f(getattr(out, "packet_rate_hz", None)), _f(getattr(out, "t_off_ms", None)))
+    else:
+        obs = ("exc", R.STATES[after], exc)
     if abs(after - before) > 1:
         bad.append(dict(kind="reactive_state_skipped", to_state=R.STATES[after], **base))
     if _in_range(c):
@@ -91,11 +97,11 @@ def reactive_edge(obj, cfg, c):
         outcome = ("in", before, after)
     else:
         outcome = ("out", "raises " + exc if exc else "accepted", after - before)
-    return before, after, outcome, bad
+    return before, after, outcome, bad, obs
 
 
 def reactive_part(ctx, rng):
-    n_states = n_edges = n_conv = 0
+    n_states = n_edges = n_conv = n_calls = 0
     graph_digest = hashlib.sha256()
     outcomes = set()
     oor = {}
@@ -105,18 +111,27 @@ def reactive_part(ctx, rng):
         table = R.table_for(1000 if cfg is None else cfg)
         inputs = REACTIVE_IN + REACTIVE_OUT
         rng.shuffle(inputs)
-        root = _mk_reactive(cfg)
-        seen = {repr(X.generic_canon(root)): (root, [])}
-        frontier = [repr(X.generic_canon(root))]
+        # BFS over real objects.  Canonical state = (public ``state``, one-step signature): the observations of
+        # update(c) for every input c, each on its own snapshot.  Two objects with the same public state and the same
+        # reaction to every input are merged; hidden state that changes any reaction yields a new canonical state.
+        seen = {}
+        frontier = [(_mk_reactive(cfg), [])]
         edges = []
         depth = 0
         while frontier and depth < 12:
             nxt = []
-            for key in frontier:
-                snap, path = seen[key]
+            for snap, path in frontier:
+                res = []
                 for c in inputs:
                     o = copy.deepcopy(snap)
-                    b, a, outcome, bad = reactive_edge(o, cfg, c)
+                    b, a, outcome, bad, obs = reactive_edge(o, cfg, c)
+                    n_calls += 1
+                    res.append((c, o, b, a, outcome, bad, obs))
+                key = (R.STATES[_sidx(snap)], tuple(sorted((_f(c), obs) for c, _o, _b, _a, _oc, _bad, obs in res)))
+                if key in seen:
+                    continue
+                seen[key] = (snap, path)
+                for c, o, b, a, outcome, bad, obs in res:
                     n_edges += 1
                     outcomes.add((table,) + outcome)
                     if not _in_range(c):
@@ -124,10 +139,7 @@ def reactive_part(ctx, rng):
                     edges.append((R.STATES[b], _f(c), R.STATES[a]))
                     for rec in bad:
                         ctx.violation(rec, replay=dict(part="reactive", cfg=cfg, path=[_f(x) for x in path], cbr=_f(c)))
-                    k2 = repr(X.generic_canon(o))
-                    if k2 not in seen:
-                        seen[k2] = (o, path + [c])
-                        nxt.append(k2)
+                    nxt.append((o, path + [c]))
             frontier = nxt
             depth += 1
         if frontier:
@@ -165,10 +177,11 @@ def reactive_part(ctx, rng):
         for e in sorted(edges):
             graph_digest.update(repr((cfg, e)).encode())
     ctx.parts["reactive"] = dict(
-        configs=[("default" if c is None else c) for c in REACTIVE_CFG], states=n_states, edges=n_edges, convergence_evaluations=n_conv,
+        configs=[("default" if c is None else c) for c in REACTIVE_CFG], states=n_states, edges=n_edges, update_calls=n_calls,
+        convergence_evaluations=n_conv,
         in_range_inputs=len(REACTIVE_IN), out_of_range_inputs=len(REACTIVE_OUT), graph_closed=closed_all, outcomes=len(outcomes),
         out_of_range_behaviour={k: sorted(v) for k, v in sorted(oor.items())}, digest=graph_digest.hexdigest()[:16])
-    return n_states, n_edges + n_conv, n_edges + n_conv, outcomes, samples, graph_digest.hexdigest()[:16]
+    return n_states, n_calls + n_conv, n_calls + n_conv, outcomes, samples, graph_digest.hexdigest()[:16]
 
 
 # =================================================================================================
@@ -216,10 +229,36 @@ def _adaptive_check(pi, mode, seq, got, ref_delta, exc):
     return out
 
 
-def _state_hash(pi, mode, alg, last):
-    fl = tuple(v for _k, v in sorted(vars(alg).items()) if isinstance(v, float))
-    raw = struct.pack("<BB%dd" % (len(fl) + 1), pi, MODES.index(mode), *(fl + (last,)))
+def _state_hash(pi, mode, alg, got, last):
+    """State of one adaptive instance as seen through its documented attributes (``cbr_its_s``, ``delta``) and the
+    returned delta; used for counting / the digest only (the sequence tree is enumerated completely, nothing is merged)."""
+    vals = []
+    for v in (getattr(alg, "cbr_its_s", None), getattr(alg, "delta", None), got, last):
+        vals.append(v if isinstance(v, float) else -1.0)
+    raw = struct.pack("<BB4d", pi, MODES.index(mode), *vals)
     return int.from_bytes(hashlib.blake2b(raw, digest_size=8).digest(), "little")
+
+
+_SCALARS = (int, float, str, bool, type(None))
+
+
+def _flat(obj, depth=0):
+    """True if ``obj`` holds only scalars, or one level of plain objects holding only scalars (then copy.copy is a snapshot)."""
+    d = getattr(obj, "__dict__", None)
+    if d is None:
+        return False
+    for v in d.values():
+        if isinstance(v, _SCALARS):
+            continue
+        if depth == 0 and hasattr(v, "__dict__") and all(isinstance(x, _SCALARS) for x in vars(v).values()):
+            continue        # e.g. the parameter set: never mutated by update(), shared between snapshots
+        return False
+    return True
+
+
+def _snap(alg):
+    """Snapshot of the real object: shallow copy when that provably is one, deepcopy otherwise (slower, always right)."""
+    return copy.copy(alg) if _flat(alg) else copy.deepcopy(alg)
 
 
 def _ref_class(ref, before_delta):
@@ -247,7 +286,7 @@ def _adaptive_job(args):
     # iterative DFS over the prefix tree; every node = one real update() on a snapshot of its parent
     while stack:
         alg_p, ref_p, prev, seq, _ = stack.pop()
-        alg = copy.copy(alg_p)
+        alg = _snap(alg_p)
         ref = ref_p.copy()
         c = seq[-1]
         try:
@@ -266,7 +305,7 @@ def _adaptive_job(args):
                 for rec in bad:
                     viol.append((rec, dict(part="adaptive", params=pi, mode=mode, seq=[_f(x) for x in seq])))
             continue        # model and implementation have diverged: do not extend this sequence
-        hashes.append(_state_hash(pi, mode, alg, c))
+        hashes.append(_state_hash(pi, mode, alg, got, c))
         if len(seq) < L:
             for s in order:
                 stack.append((alg, ref, c, seq + (ALPHABET[s],), True))
@@ -291,7 +330,7 @@ def adaptive_rejection(ctx):
                     prev = c
                 for badv in BAD_CBR:
                     for pos in ("cbr_local", "cbr_local_previous"):
-                        a2 = copy.copy(alg)
+                        a2 = _snap(alg)
                         kw = dict(cbr_local=0.5, cbr_local_previous=prev)
                         if mode == "global":
                             kw = dict(cbr_local=DECOY[0], cbr_local_previous=DECOY[1], cbr_global=0.5, cbr_global_previous=prev)
@@ -308,7 +347,7 @@ def adaptive_rejection(ctx):
                             continue
                         # the rejected value must leave no trace: the next valid evaluation returns exactly what an
                         # untouched snapshot of the same real object returns (and that one is judged by the sequence check)
-                        a3 = copy.copy(alg)
+                        a3 = _snap(alg)
                         try:
                             got = _adaptive_call(a2, mode, 0.5, prev)
                             ctrl = _adaptive_call(a3, mode, 0.5, prev)
@@ -414,10 +453,6 @@ class GateWorld(env.World):
         return n
 
 
-def _q(x, unit):
-    return int(round(x / unit))
-
-
 class GateModel:
     """Real GateKeeper in lock-step with R.Gate.  ``t`` reaches the implementation as a parameter (no clock reads)."""
 
@@ -426,6 +461,8 @@ class GateModel:
         self.delta0 = DELTAS[delta0]
         self.order = list(GATE_EVENTS if menu == "planned" else GATE_EVENTS_WIDE)
         _random.Random(order_seed).shuffle(self.order)
+        self.delta_names = sorted(a for k, a in self.order if k == "delta")
+        self.t_on_us = sorted(a for k, a in self.order if k == "arr")
 
     def init(self):
         w = GateWorld(self.origin, self.delta0)
@@ -504,12 +541,21 @@ class GateModel:
         return None if w.last_admit is None else float((w.t - w.last_admit) * 1000)
 
     def _observe(self, w, ev):
-        """Probe the (side-effect free) is_open() of the real gate now and around the reference opening time."""
+        """Observe the real gate through its public interface only.
+
+        All ``is_open()`` probes go to a copy of the real object (so nothing is assumed about is_open() being
+        side-effect free): now, and 2 ns before / after the reference opening time (brackets the implementation's
+        opening time).  Then one-step lookahead, each on its own copy: while closed, every delta of the menu through
+        ``update_delta`` (B.2); while open, every T_on of the menu through ``admit_packet`` (B.1) - and the resulting
+        opening time is bracketed again.  (t_pg, t_go, delta) of the real gate are thus compared with the reference at
+        EVERY transition without reading a private field, also on successors that are later dropped as duplicates."""
         gk, ref = w.gk, w.ref
         base = dict(part="gate", event=ev[0], arg=str(ev[1]))
-        before = X.generic_canon(gk)
+        tf = float(w.t)
+        n0 = len(w.bad)
         with w:
-            impl_now = bool(gk.is_open(float(w.t)))
+            probe = copy.deepcopy(gk)
+            impl_now = bool(probe.is_open(tf))
             ref_now = ref.is_open(w.t)
             in_band = ref.t_go is not None and abs(w.t - ref.t_go) <= NS
             if impl_now != ref_now and not in_band:
@@ -519,19 +565,42 @@ class GateModel:
             # inside the 1 ns band either answer is allowed and the reference follows the implementation
             w.view_open = impl_now if in_band else ref_now
             if ref.t_go is not None and not ref_now:
-                early = ref.t_go - 2 * NS
-                if early > w.t and gk.is_open(float(early)):
-                    w.bad.append(dict(kind="gate_opens_before_b1_b2_time", to_reference_opening_ms=float((ref.t_go - w.t) * 1000), _cut=True, **base))
-                if not gk.is_open(float(ref.t_go + 2 * NS)):
-                    w.bad.append(dict(kind="gate_still_closed_after_b1_b2_time", to_reference_opening_ms=float((ref.t_go - w.t) * 1000), _cut=True, **base))
+                self._bracket(w, probe, ref, "none", base)
             if w.last_admit is not None:
-                if not gk.is_open(float(w.last_admit + R.GATE_MAX + 2 * NS)):
+                if not probe.is_open(float(w.last_admit + R.GATE_MAX + 2 * NS)):
                     w.bad.append(dict(kind="gate_closed_longer_than_1s", **base))
                 early = w.last_admit + R.GATE_MIN - 2 * NS
-                if early > w.t and gk.is_open(float(early)):
+                if early > w.t and probe.is_open(float(early)):
                     w.bad.append(dict(kind="gate_open_before_25ms", **base))
-        if X.generic_canon(gk) != before:
-            raise RuntimeError("GateKeeper.is_open() changed the gate state; the probing oracle of C19 needs a pure is_open()")
+            if len(w.bad) == n0:
+                if not w.view_open:
+                    for name in self.delta_names:
+                        g, r = copy.deepcopy(gk), copy.copy(ref)
+                        g.update_delta(tf, DELTAS[name])
+                        r.set_delta(DELTAS[name], True)
+                        self._bracket(w, g, r, "delta:" + name, base)
+                else:
+                    for us in self.t_on_us:
+                        g, r = copy.deepcopy(gk), copy.copy(ref)
+                        t_on = float(F(us, 10**6))
+                        if not g.admit_packet(tf, t_on):
+                            w.bad.append(dict(kind="gate_admission_mismatch", admitted=False, gate_open_per_b1_b2=True,
+                                              since_last_admission_ms=self._since(w), lookahead="arr:%d" % us, _cut=True, **base))
+                            continue
+                        r.admit(w.t, t_on)
+                        self._bracket(w, g, r, "arr:%d" % us, base)
+
+    @staticmethod
+    def _bracket(w, g, r, lookahead, base):
+        """The gate ``g`` must be closed 2 ns before and open 2 ns after the opening time of reference ``r``."""
+        early = r.t_go - 2 * NS
+        if early > w.t and g.is_open(float(early)):
+            w.bad.append(dict(kind="gate_opens_before_b1_b2_time", to_reference_opening_ms=float((r.t_go - w.t) * 1000),
+                              lookahead=lookahead, _cut=True, **base))
+        late = max(w.t, r.t_go + 2 * NS)
+        if not g.is_open(float(late)):
+            w.bad.append(dict(kind="gate_still_closed_after_b1_b2_time", to_reference_opening_ms=float((r.t_go - w.t) * 1000),
+                              lookahead=lookahead, _cut=True, **base))
 
     # ---- verdicts / canonical state -----------------------------------------------------------------
     def check(self, w, ev, obs, hist):
@@ -540,28 +609,15 @@ class GateModel:
         return w.bad
 
     def canon(self, w):
-        """(t - t_pg, t_go - t, delta) of the reference in exact rationals, plus the deviation of the real
-        object's fields from the reference quantised to 0.1 ns (0 everywhere unless the implementation has
-        diverged - hidden divergence therefore yields *distinct* states and is explored, never merged away).
-        Absolute time is dropped: B.1/B.2 and the implementation use time differences only."""
-        ref, gk = w.ref, w.gk
-        if ref.t_pg is None:
-            rc = (None, None)
-        else:
-            rc = (w.t - ref.t_pg, ref.t_go - w.t)
-        try:
-            ic = []
-            for real, model in ((gk._t_pg, ref.t_pg), (gk._t_go, ref.t_go)):
-                if real is None or model is None:
-                    ic.append("same" if real is None and model is None else "none-mismatch")
-                else:
-                    ic.append(_q(F(real) - model, NS / 10))
-            ic.append(_q(F(gk._delta) - ref.delta, F(1, 10**12)))
-            ic = tuple(ic)
-        except AttributeError:
-            ic = ("generic", X.generic_canon(gk), w.t)      # refactored field names: finer states, still sound
+        """(t - t_pg, t_go - t, delta) of the REFERENCE in exact rationals + time since the last real admission + the
+        gate view.  No field of the real object is read: every state that is stored has just passed _observe(), i.e.
+        the real gate agreed with the reference on its opening time and on the opening time after every menu delta
+        update / admission (states that disagree are reported and cut, never stored).  Absolute time is dropped:
+        B.1/B.2 use time differences only."""
+        ref = w.ref
+        rc = (None, None) if ref.t_pg is None else (w.t - ref.t_pg, ref.t_go - w.t)
         la = None if w.last_admit is None else w.t - w.last_admit
-        return (rc, ref.delta, ic, la, w.view_open)
+        return (rc, ref.delta, la, w.view_open)
 
     def outcome(self, w, obs):
         return obs
@@ -737,10 +793,12 @@ def run(ctx):
         state_digests=[("reactive", d1), ("adaptive", d2)] + d3,
         samples=(smp1 + smp2 + smp3)[:5],
         explanation=("every transition is a call into the real DccReactive.update / DccAdaptive.update / GateKeeper.admit_packet, "
-                     "update_delta (or a move of the harness clock that is passed to them as the parameter t); states are the canonical "
-                     "digests of the real objects (reactive: whole object; adaptive: all float fields + last measurement; gate: "
-                     "(t-t_pg, t_go-t, delta) + deviation of the real fields from the reference); 'exhaustive' refers to the stated "
-                     "alphabets and depth bounds (gate: depth cap is the bound), not to all real-valued inputs"),
+                     "update_delta (or a move of the harness clock that is passed to them as the parameter t); canonical states use the "
+                     "public interface only (reactive: documented state attribute + one-step signature of update() over all inputs; "
+                     "adaptive: documented cbr_its_s/delta + returned delta + last measurement, counted not merged; gate: "
+                     "(t-t_pg, t_go-t, delta) of the reference, the real gate being compared with it at every transition through "
+                     "is_open() probes and one-step lookahead on copies); 'exhaustive' refers to the stated alphabets and depth "
+                     "bounds (gate: depth cap is the bound), not to all real-valued inputs"),
     )
     ctx.assumptions += [
         "Annex A rows as literals in mc/ref/dcc.py; the Table A.1 Active-3/Restrictive boundary (0.60) could not be compared with "
@@ -754,8 +812,10 @@ def run(ctx):
         "reference opening time either answer is accepted and the reference follows the implementation; times are seconds from a "
         "small origin (0 s, thorough also 64 s) where binary64 resolves far below 1 ns - with unix-epoch magnitudes (ulp 238 ns) "
         "a 1 ns criterion is not meaningful",
-        "GateKeeper.is_open() is side-effect free (asserted at every state), so the implementation's opening time is bracketed by "
-        "probing is_open() 2 ns before/after the B.1/B.2 time without reading private fields",
+        "the real gate is observed through is_open()/admit_packet()/update_delta() on deep copies only (no private field is "
+        "read, is_open() need not be pure): its opening time is bracketed 2 ns before/after the B.1/B.2 time, and after every "
+        "transition each menu delta (closed) / T_on (open) is applied to a copy and bracketed again (one-step lookahead); a hidden "
+        "divergence that no single menu event reveals would go unnoticed until it becomes observable",
         "reactive inputs outside [0,1] are outside the statement's quantifier: behaviour is reported (parts.reactive."
         "out_of_range_behaviour), only the one-state-per-evaluation rule is judged for them",
     ]
@@ -780,7 +840,7 @@ def replay(path):
             return 1
         c = _pf(rp["cbr"])
         if part == "reactive":
-            b, a, outcome, bad = reactive_edge(o, rp["cfg"], c)
+            b, a, outcome, bad, _obs = reactive_edge(o, rp["cfg"], c)
             print(R.STATES[b], "--", c, "->", R.STATES[a], outcome, bad or "ok")
         else:
             table = R.table_for(1000 if rp["cfg"] is None else rp["cfg"])
@@ -821,7 +881,7 @@ def replay(path):
         if rp["mode"] == "global":
             kw = dict(cbr_local=DECOY[0], cbr_local_previous=DECOY[1], cbr_global=0.5, cbr_global_previous=prev)
         kw[rp["argument"]] = _pf(rp["value"])
-        ctrl = _adaptive_call(copy.copy(alg), rp["mode"], 0.5, prev)
+        ctrl = _adaptive_call(_snap(alg), rp["mode"], 0.5, prev)
         try:
             r = alg.update(**kw)
             print("accepted ->", r)
